@@ -62,7 +62,7 @@ pub fn source(template: usize, params: &Json) -> (String, usize, bool) {
         // 4: EXIT / CONTINUE / RETURN shapes
         4 => {
             let s = format!(
-                "CONFIGURATION C\n{globals}TASK T0 (INTERVAL := T#{i0}ms, PRIORITY := {pr0});\nTASK T1 (INTERVAL := T#{i1}ms, PRIORITY := {pr1});\nPROGRAM P0 WITH T0 : Main;\nPROGRAM P1 WITH T1 : Aux;\nEND_CONFIGURATION\n\n{leaf}FUNCTION_BLOCK Gate\nVAR_INPUT\n  v : DINT;\nEND_VAR\nVAR_OUTPUT\n  passed : DINT;\nEND_VAR\nMETHOD PUBLIC Check : BOOL\nVAR_INPUT\n  lim : DINT;\nEND_VAR\nIF v > lim THEN\n  Check := TRUE;\nELSE\n  Check := Leaf(v) > lim;\nEND_IF;\nEND_METHOD\nIF v < 0 THEN\n  RETURN;\nEND_IF;\npassed := passed + 1;\nEND_FUNCTION_BLOCK\n\nPROGRAM Main\nVAR_EXTERNAL\n  g_acc : DINT;\n  g_cnt : DINT;\nEND_VAR\nVAR\n  g : Gate;\n  i : DINT;\nEND_VAR\ng_cnt := g_cnt + 1;\nFOR i := 0 TO {n2} + 2 DO\n  IF i = 1 THEN\n    CONTINUE;\n  END_IF;\n  g(v := i - 1 + g_cnt);\n  IF g.Check(lim := {c2}) THEN\n    g_acc := g_acc + 10;\n    EXIT;\n  END_IF;\n  g_acc := g_acc + 1;\nEND_FOR;\nEND_PROGRAM\n\nPROGRAM Aux\nVAR_EXTERNAL\n  g_aux : DINT;\nEND_VAR\nVAR\n  w : DINT;\nEND_VAR\nw := 0;\nWHILE TRUE DO\n  w := w + 1;\n  IF w > {n1} THEN\n    EXIT;\n  END_IF;\n  g_aux := g_aux + Leaf(w);\nEND_WHILE;\nEND_PROGRAM\n"
+                "CONFIGURATION C\n{globals}TASK T0 (INTERVAL := T#{i0}ms, PRIORITY := {pr0});\nTASK T1 (INTERVAL := T#{i1}ms, PRIORITY := {pr1});\nPROGRAM P0 WITH T0 : Main;\nPROGRAM P1 WITH T1 : Aux;\nEND_CONFIGURATION\n\n{leaf}FUNCTION_BLOCK Gate\nVAR_INPUT\n  v : DINT;\nEND_VAR\nVAR_OUTPUT\n  passed : DINT;\nEND_VAR\nMETHOD PUBLIC Check : BOOL\nVAR_INPUT\n  lim : DINT;\nEND_VAR\nIF v > lim THEN\n  Check := TRUE;\nELSE\n  Check := Leaf(v) > lim;\nEND_IF;\nEND_METHOD\nIF (v MOD 3) = 0 THEN\n  RETURN;\nEND_IF;\npassed := passed + 1;\nEND_FUNCTION_BLOCK\n\nPROGRAM Main\nVAR_EXTERNAL\n  g_acc : DINT;\n  g_cnt : DINT;\nEND_VAR\nVAR\n  g : Gate;\n  i : DINT;\nEND_VAR\ng_cnt := g_cnt + 1;\nFOR i := 0 TO {n2} + 2 DO\n  IF i = 1 THEN\n    CONTINUE;\n  END_IF;\n  g(v := i - 1 + g_cnt);\n  IF g.Check(lim := {c2}) THEN\n    g_acc := g_acc + 10;\n    EXIT;\n  END_IF;\n  g_acc := g_acc + 1;\nEND_FOR;\nEND_PROGRAM\n\nPROGRAM Aux\nVAR_EXTERNAL\n  g_aux : DINT;\nEND_VAR\nVAR\n  w : DINT;\nEND_VAR\nw := 0;\nWHILE TRUE DO\n  w := w + 1;\n  IF w > {n1} THEN\n    EXIT;\n  END_IF;\n  g_aux := g_aux + Leaf(w);\nEND_WHILE;\nEND_PROGRAM\n"
             );
             (s, 2, false)
         }
